@@ -1223,6 +1223,30 @@ fn grid(args: &Args, thorough: bool, seed: u64, total: &mut Report, bounds: &mut
                 order += 1;
                 check_hay(&mut ctx, r, &subjects, needle, &h, Place::Plain, (order % 16) as usize, None, order);
             }
+            // a NEAR MISS (one byte changed, at every position of the needle)
+            // in front of 0 / 3 and behind 0 / 20 / 40 filler bytes, alone and
+            // followed by a real occurrence - once per needle (len == 0 pass)
+            if len == 0 && m >= 2 {
+                for j in 0..m {
+                    for pre in [0usize, 3] {
+                        for post in [0usize, 20, 40] {
+                            for with in [false, true] {
+                                h.clear();
+                                h.extend(std::iter::repeat(b'.').take(pre));
+                                h.extend_from_slice(needle);
+                                h[pre + j] ^= 0x04;
+                                h.extend(std::iter::repeat(b'.').take(post));
+                                if with {
+                                    h.extend_from_slice(needle);
+                                    h.extend_from_slice(b"..");
+                                }
+                                order += 1;
+                                check_hay(&mut ctx, r, &subjects, needle, &h, Place::Plain, (order % 16) as usize, None, order);
+                            }
+                        }
+                    }
+                }
+            }
             // ONE occurrence at every position
             if m == 0 || len < m {
                 continue;
@@ -1237,7 +1261,7 @@ fn grid(args: &Args, thorough: bool, seed: u64, total: &mut Report, bounds: &mut
         }
     });
     total.merge(rep);
-    bounds.insert("grid".into(), json!({"needle_len": [0, nmax], "haystack_len": [0, hmax], "all_length_pairs": true, "needle_kinds": nkinds, "occurrence": ["none", "one at EVERY position", "truncated at the end"]}));
+    bounds.insert("grid".into(), json!({"needle_len": [0, nmax], "haystack_len": [0, hmax], "all_length_pairs": true, "needle_kinds": nkinds, "occurrence": ["none", "one at EVERY position", "truncated at the end"], "near_miss": "one byte changed at every needle position, pads 0/3 x 0/20/40, alone and followed by an occurrence"}));
 }
 
 /// Long needles at EVERY length 33..=300 (thorough 600): two rare bytes at
